@@ -81,6 +81,9 @@ fn dump_iter(it: &mut dyn RainDbIterator<Key = Vec<u8>, Error = RainDBError>) ->
         out.push((k.clone(), v.clone()));
         it.next();
     }
+    if let Some(e) = it.status() {
+        return Err(e);
+    }
     Ok(out)
 }
 
